@@ -402,6 +402,19 @@ theorem genbank_to_fasta_real (reg : GenBank.Registry) (version definition bytes
     (by simp [hd, hr])
   simpa [writeAll, faRecs] using this
 
+open Gts.Auto (Rec Out) in
+/-- **GenBank → FASTA — the code of the tree, read back by the real auto scanner** (`gen_genbank_to_fasta`
+with the real GenBank reader in front of `FastaParser`) -/
+theorem gen_genbank_to_fasta_real (reg : GenBank.Registry) (gbf : Gen.GbFields.GenBankFields) (bytes : Bytes)
+    (hd : noCR (Gen.GbFields.genBankFieldsString itoaBytes gbf) = true) (hr : resOk bytes = true) :
+    ∃ text, Gen.FastaWrite.fastaWriterWriteSeq Bridge.wrapForceModel
+        (.other (.stringer (Gen.GbFields.genBankFieldsString itoaBytes gbf)) bytes) = some text ∧
+      Auto.scanAll reg text =
+        .done [.fa (nl2sp (Gen.GbFields.genBankFieldsString itoaBytes gbf)) bytes] reg true := by
+  rw [Bridge.fastaWriterWriteSeq_genbank]
+  rw [Bridge.genBankFieldsString_eq] at hd ⊢
+  exact genbank_to_fasta_real reg gbf.Version gbf.Definition bytes gbf.Region hd hr
+
 /-- non-vacuity of the `…_real` theorems on concrete data: the default registry, an empty record and a
 71-residue record; the summary lists (is GenBank, length) per record and the `Err() == nil` verdict -/
 example : (Auto.scanAll GenBank.Registry.default (writeAll [([100], []), ([101], List.replicate 71 65)])).summary =
